@@ -49,8 +49,8 @@ PROPS["C16"] = {
     "channels": [{"cmd": "run-c16"}],
     "cone": r"^MISMATCH (json|json-fuel|harness|driver)",
     "rule": "documents nested exactly at, one and two levels past the recursion cap (closed, examined whole; open, truncated mode), verdict compared with the model; bombs of 10^4..10^6 (thorough: 10^7) levels in four shapes ('[', '{\"k\":', mixed, padded), open and closed, at limits 0 and 2^32-1, run in a process whose maximum stack is 16 MB: must return, must not be reported as JSON; a fatal stack overflow kills the shard (no DONE line) and is reported",
-    "proved": "depth_bounded (recursion level <= cap for every input, query, limit), pool installs the cap (regenerated runtime dump), array_bomb_rejected (more than cap+1 opening brackets: not JSON in whole and truncated mode)",
-    "not_proved": "bytes of stack per frame; bombs of other shapes are decided on the implementation",
+    "proved": "depth_bounded (recursion level <= cap for every input, query, limit), pool installs the cap (regenerated runtime dump), bomb_rejected: more than cap+1 containers opened in a row - arrays and objects in any mixture, any keys, any layout, anything after them - are not JSON in whole and truncated mode (array_bomb_rejected is the all-brackets instance)",
+    "not_proved": "bytes of stack per frame and Go's stack growth (exercised: bombs of 10^4..10^7 levels in four shapes under a 16 MB stack limit); model = Go scanner by correspondence",
     "data_obligations": ["pool_max_recursion = max_recursion = 4096"],
     "assumptions": COMMON_ASSUME + ["Go recursion depth equals the model's lvl structure (two frames per level)"],
 }
